@@ -7,8 +7,9 @@
          4 tid ns order recalc                 calculate_energy_exchange
          5 recv direct                         collect_energy_receiver_mono
          6 / 7                                 from_dict(to_dict()) / from_read(write())
-   Output: one line per op:
+   Output: two lines per op:
      o_step <class> <obs> <field_1> .. <field_25>
+     o_check <class of check() on the state after the op>
    obs / field = "None" or kind:own:shape:term  (shape d1xd2.. or "-"; term without blanks). *)
 open Model
 open Drv_core
@@ -82,5 +83,9 @@ let () =
           Buffer.add_char buf ' '; Buffer.add_string buf (obs_str ob);
           List.iter (fun f -> Buffer.add_char buf ' '; Buffer.add_string buf (desc_str (get f s)))
             all_fields;
+          finish ();
+          (* what check() -- run by every restore -- answers for this state *)
+          start "o_check";
+          Buffer.add_char buf ' '; Buffer.add_string buf (class_str (ocheck g s));
           finish ()) tr;
       start "o_end"; finish ())
